@@ -102,9 +102,16 @@ fn main() {
             // long chains of rules that refer twice to the next one: the validator must not search them exponentially
             seeds.push((0..40).map(|i| format!("c{} = {{ c{}? ~ c{}? }}\n", i, i + 1, i + 1)).collect::<String>() + "c40 = { \"x\" }\n");
             seeds.push((0..14).map(|i| format!("d{} = {{ d{} | d{} }}\n", i, i + 1, i + 1)).collect::<String>() + "d14 = { \"x\" }\n");
+            // the same with rule modifiers that switch implicit skipping on and off at every level (the search is per rule and mode)
+            seeds.push((0..14).map(|i| format!("e{} = @{{ f{}? ~ f{}? }}\nf{} = !{{ e{}? ~ e{}? }}\n", i, i, i, i, i + 1, i + 1)).collect::<String>() + "e14 = @{ \"x\" }\n");
+            // repetition counts at the edges, in positions where they are read (not mutated further: a digit less gives a count
+            // of hundreds of millions, outside "counts of bounded size")
+            let mut fixed: Vec<String> = vec![];
+            for t in ["a = { \"x\"{18446744073709551616} }", "a = { \"x\"{,99999999999999999999} }", "a = { \"x\"{1,123456789012345678901234567890} }", "a = { \"x\"{4294967296} }",
+                "a = { \"x\"{3,2} }", "a = { \"x\"{1,} ~ (\"y\" | \"z\"){10,1} }", "a = { \"x\"{0} }", "a = { \"x\"{0,0} }", "a = { (\"x\"{2}){,3}{2,} }", "a = { PEEK[4294967296..] ~ PEEK[..-4294967296] }"] { fixed.push(t.to_string()); }
             seeds.push("a = { ( | \"b\" | c) ~ PUSH( | \"d\") ~ ^ \"e\" ~ (| (| \"f\")) }\nc = { \"c\" }\n".to_string());
             let n = if thorough { 200000 } else { 12000 };
-            let mut texts: Vec<String> = vec![seeds[seeds.len() - 1].clone(), seeds[seeds.len() - 2].clone(), seeds[seeds.len() - 3].clone(), "".into(), " ".into(), "a".into(), "a = ".into(), "a = {".into(), "a = { }".into(), "a = { \"".into(), "\u{feff}a = { \"b\" }".into(), "a = { 'a'..'b' }".into(), "//!".into(), "///".into(), "/*".into()];
+            let mut texts: Vec<String> = seeds[seeds.len() - 4..].to_vec(); texts.extend(fixed); texts.extend(vec!["".to_string(), " ".into(), "a".into(), "a = ".into(), "a = {".into(), "a = { }".into(), "a = { \"".into(), "\u{feff}a = { \"b\" }".into(), "a = { 'a'..'b' }".into(), "//!".into(), "///".into(), "/*".into()]);
             while texts.len() < n { let base = rng.pick(&seeds).clone(); let base = if base.len() > 1500 && rng.chance(3, 4) { let cs: Vec<char> = base.chars().collect(); let st = rng.below(cs.len() as u64) as usize; cs[st..(st + 400).min(cs.len())].iter().collect() } else { base }; texts.push(mutate(&mut rng, &base)); }
             for chunk in texts.chunks(1000) {
                 let res = run_batch(chunk, &dir, Duration::from_secs(30));
